@@ -13,33 +13,32 @@ open Pithos.S3 Pithos.Migrator
 
 /-! ### T1: which attributes flow from the source object into the destination's storage calls -/
 
-/-- Every attribute the property names except the storage class flows, in the current source, from
+/-- **migrate_fields_complete.** Every attribute the property names flows, in the current source, from
 the source object through `s3.PutObjectInput` and the uploader adapter into the destination's
 `PutObject` and into its `CreateMultipartUpload`/`UploadPart` (objects above the 5 MiB part size). -/
-theorem migrate_fields_complete_partial :
-    ∀ f ∈ observableFields, f ≠ .storageClass → f ∈ migratedFields genTable := by decide
+theorem migrate_fields_complete : ∀ f ∈ observableFields, f ∈ migratedFields genTable := by decide
 
-/-- Negation witness (current source): the storage class is not carried. -/
-theorem storage_class_not_migrated : Field.storageClass ∉ migratedFields genTable := by decide
-
-/-- The only gap of the current table. Becomes `= []` once fixes/C37-migrate-storage-class.patch is in
-(then `migrate_fields_complete : ∀ f ∈ observableFields, f ∈ migratedFields genTable` is this line). -/
-theorem current_gap : observableFields.filter (fun f => !flows genTable f) = [.storageClass] := by decide
+/-- The current table has no gap (before /repo commit ae066fa it was `[.storageClass]`). -/
+theorem current_gap : observableFields.filter (fun f => !flows genTable f) = [] := by decide
 
 theorem current_carried : migratedFields genTable = [.content, .contentType, .cacheControl, .contentDisposition,
-    .contentEncoding, .contentLanguage, .expires, .websiteRedirect, .userMetadata, .tags] := by decide
+    .contentEncoding, .contentLanguage, .expires, .websiteRedirect, .userMetadata, .tags, .storageClass] := by decide
 
 /-- `Expires` is the one attribute converted on the way (`parseExpires`, then `Format(http.TimeFormat)`):
 it survives exactly when it is a fixed point of that conversion. -/
 theorem expires_is_converted : (conversions genTable .expires).contains "parseExpires" = true := by decide
 
-/-- A complete table carries everything (what `flows` demands is satisfiable): the table the proposed
-patch produces. -/
-theorem patched_table_complete :
-    let t : FlowTable := { genTable with
-      inputAssignments := genTable.inputAssignments ++ [("StorageClass", ["srcObject.StorageClass"], ["types.StorageClass"])],
-      adapterFlows := genTable.adapterFlows ++ [("PutObject", "StorageClass", "opt:StorageClass"), ("CreateMultipartUpload", "StorageClass", "opt:StorageClass")] }
-    ∀ f ∈ observableFields, f ∈ migratedFields t := by decide
+/-- The table of the migrator before the repair (/repo commit ae066fa): the current one without the
+`StorageClass` assignment and adapter options. Kept so that the witnesses of the recorded defect stay
+provable. -/
+def preFixTable : FlowTable :=
+  { genTable with
+    inputAssignments := genTable.inputAssignments.filter (fun a => a.1 != "StorageClass"),
+    adapterFlows := genTable.adapterFlows.filter (fun a => a.2.1 != "StorageClass") }
+
+/-- Negation witness (code before the repair): the storage class was the one attribute not carried. -/
+theorem preFix_storage_class_not_migrated :
+    observableFields.filter (fun f => !flows preFixTable f) = [.storageClass] := by decide
 
 /-! ### Migration over two storage states -/
 
@@ -173,25 +172,24 @@ theorem migrate_empty_dst_equiv (q : Quirks) (src dst : State) (hdst : dst.bucke
   | none => rfl
   | some v => simp [carry_ideal]
 
-/-- **migrate_empty_dst_equiv_partial** (the migrator as it is: the attributes of `genTable`). Objects
-without a storage class and with an `Expires` value that the HTTP-date round trip `ex` leaves alone
-(or none) arrive identical. -/
+/-- **migrate_empty_dst_equiv_partial** (the migrator as it is: the attributes of `genTable`, `Expires`
+through the HTTP-date round trip `ex`). Objects whose `Expires` value that round trip leaves alone
+(or that have none) arrive identical — content, content type, metadata, tags and storage class. -/
 theorem migrate_empty_dst_equiv_partial (q : Quirks) (ex : String → Option String) (src dst : State)
     (hdst : dst.buckets = []) (hwf : SrcWF src) (bk : Bucket) (hbk : bk ∈ src.buckets) (k : String) (v : View)
-    (hv : cur src bk.name k = some v) (hcls : v.cls = none)
+    (hv : cur src bk.name k = some v)
     (hex : ∀ p ∈ v.md, p.1 = "!ex" → ex p.2 = some p.2) :
     cur (migrate q (codeParams genTable ex) src dst).dst bk.name k = some v := by
   obtain ⟨_, h⟩ := migrate_into_empty q (codeParams genTable ex) src dst hdst hwf
   rw [h bk hbk k, hv]
   simp only [Option.map_some, Option.some.injEq]
   have hc : (codeParams genTable ex).carried = [.content, .contentType, .cacheControl, .contentDisposition, .contentEncoding,
-      .contentLanguage, .expires, .websiteRedirect, .userMetadata, .tags] := current_carried
+      .contentLanguage, .expires, .websiteRedirect, .userMetadata, .tags, .storageClass] := current_carried
   have hexf : (codeParams genTable ex).ex = ex := by
     unfold codeParams
     simp only [expires_is_converted, if_true]
   obtain ⟨body, ct, md, tags, cls⟩ := v
-  simp only at hcls hex
-  subst hcls
+  simp only at hex
   have hmd : carryMd (codeParams genTable ex) md = md := by
     apply carryMd_id
     · intro p _
@@ -209,12 +207,14 @@ def witnessRow : Row :=
     cls := some "GLACIER" }
 def witnessSrc : State := { buckets := [{ name := "b", rows := [witnessRow] }] }
 
-/-- Negation witness for the migrator as it is: a one-object source whose object is in GLACIER arrives
-without its storage class (this is the history replayed on the implementation, harness case 0). -/
-theorem asIs_loses_storage_class :
-    (migrate Quirks.code (codeParams genTable some) witnessSrc {}).ok = true ∧
+/-- Negation witness for the migrator before the repair (ae066fa): a one-object source whose object is
+in GLACIER arrived without its storage class (the history of harness case 0); the current table
+carries it. -/
+theorem preFix_loses_storage_class :
+    (migrate Quirks.code (codeParams preFixTable some) witnessSrc {}).ok = true ∧
     (cur witnessSrc "b" "k").map (·.cls) = some (some "GLACIER") ∧
-    (cur (migrate Quirks.code (codeParams genTable some) witnessSrc {}).dst "b" "k").map (·.cls) = some none := by
+    (cur (migrate Quirks.code (codeParams preFixTable some) witnessSrc {}).dst "b" "k").map (·.cls) = some none ∧
+    (cur (migrate Quirks.code (codeParams genTable some) witnessSrc {}).dst "b" "k").map (·.cls) = some (some "GLACIER") := by
   decide
 
 def exRows : List Row :=
